@@ -96,6 +96,10 @@ EXC_PARENTS = {
     "StopIteration": "Exception", "AssertionError": "Exception", "ZeroDivisionError": "ArithmeticError",
     "ArithmeticError": "Exception", "Exception": "BaseException", "NotImplementedError": "RuntimeError",
     "RuntimeError": "Exception", "BaseException": None,
+    # sqlalchemy.exc hierarchy used by functions under contract
+    "InvalidatePoolError": "DisconnectionError", "DisconnectionError": "SQLAlchemyError", "SQLAlchemyError": "Exception",
+    "InvalidRequestError": "SQLAlchemyError", "PendingRollbackError": "InvalidRequestError", "ResourceClosedError": "InvalidRequestError",
+    "TimeoutError": "SQLAlchemyError", "CircularDependencyError": "SQLAlchemyError", "ArgumentError": "SQLAlchemyError",
 }
 
 
